@@ -1017,6 +1017,41 @@ func emitRTRow(cw *caseWriter, via string, src interface{}, how int) {
 	cw.emit(fmt.Sprintf("rt from a column (%d) %s %s", how%4, via, s), true, "rt", "C12", via, s, extStr(ext), resS, back)
 }
 
+// emitRTRowText: a numeric TEXT held by an untyped Numeric column (NewValueNumeric of a string, WithNumeric + Set of
+// a string): what the cell exports and marshals is that very literal — a valid JSON number is written as it is.
+//
+//	numtext \t C12 \t <hex text> \t <exported Dyn | err> \t <hex marshalled | err>
+func emitRTRowText(cw *caseWriter, text string) {
+	exp, mar := "err", "err"
+	guard(func() {
+		for k, mk := range []func() jsonline.Value{
+			func() jsonline.Value { return jsonline.NewValueNumeric(text) },
+			func() jsonline.Value { return jsonline.NewValue(text, jsonline.Numeric, nil) },
+			func() jsonline.Value {
+				row := jsonline.NewTemplate().WithNumeric("v").CreateRowEmpty()
+				row.Set("v", text)
+				c, _ := row.GetValue("v")
+				return c
+			},
+		} {
+			e2, m2 := "err", "err"
+			if x, err := mk().Export(); err == nil {
+				e2 = dynStr(x)
+			}
+			if b, err := mk().MarshalJSON(); err == nil {
+				m2 = hxs(string(b))
+			}
+			if k == 0 {
+				exp, mar = e2, m2
+			} else if e2 != exp || m2 != mar {
+				exp, mar = exp+"|"+e2, mar+"|"+m2 // the three spellings of the same cell disagree
+			}
+		}
+	})
+	cw.count("numtext")
+	cw.emit("numtext "+text, true, "numtext", "C12", hxs(text), exp, mar)
+}
+
 func genC12(cw *caseWriter, seed uint64, tier string) {
 	r := newRng(seed)
 	var vals []interface{}
@@ -1078,6 +1113,11 @@ func genC12(cw *caseWriter, seed uint64, tier string) {
 		}
 	}
 	vals = append(vals, true, false)
+	// integer magnitudes carried by TEXT (what an untyped Numeric column holds when it was given a string): at and
+	// past the int64 bounds, the uint64 maximum, signed zero, 30 digits
+	for _, t := range []string{"18446744073709551615", "9223372036854775808", "-9223372036854775809", "9223372036854775807", "-0", "0", "123456789012345678901234567890", "1e2", "0.10", "1E+2"} {
+		emitRTRowText(cw, t)
+	}
 	// the float32 values whose shortest text is not read back exactly when it is first rounded to float64
 	// (double rounding): the only two finite ones (an exhaustive scan finds them)
 	vals = append(vals, math.Float32frombits(0x15ae43fd), math.Float32frombits(0x95ae43fd))
